@@ -186,6 +186,12 @@ func (w *fsWriter) writeBlob(data []byte, key Key, n uint64) error {
 	case found && !overwrite:
 		// the blob has been found and checked
 		w.l.Info("Duplicate blob")
+
+		// refresh the blob: it is now in use by a new writer. Garbage collection (purge) keeps blobs that are more recent
+		// than its index of used keys, and would otherwise remove an old blob that no bundle referred to when it was indexed.
+		if err := w.store.Touch(ctx, w.pather(key)); err != nil {
+			return fmt.Errorf("refresh duplicate segment file: %s err:%w", w.pather(key), err)
+		}
 		if w.MetricsEnabled() {
 			w.m.Volume.Blobs.IncBlob("write")
 			w.m.Volume.Blobs.IncDuplicate("write")
